@@ -117,6 +117,15 @@ CHECKS = {
               "are evaluated, and the bound oracle runs over ranks 1..4, both kernels families, 12 configurations, 4 modes under ASan."),
         note=TB_COMMON + "Stdlib real-number axioms + classic + functional extensionality through Flocq (Print Assumptions per theorem in the evidence). The 2-D..4-D SZ-1.4 and regression kernels are not transcribed: they are covered by the generic theorems only via the implementation oracle (partial). Truncation-within-bound is an evaluated check, not a theorem.",
         technique="Coq proof (generic codec induction, Flocq-based kernel instances, vm_compute witnesses) + bit-exact differential + bound oracle"),
+    "C08": dict(
+        category="proof", design_ref="DESIGN.md §4 C08",
+        text=("Proved over Flocq: the decompressors' clamp puts every finite value into [min, max] (binary32 and binary64, generic in the format), "
+              "leaves in-range values alone, never moves a reconstruction away from an original inside the range, and rounding the difference in "
+              "the element type is monotone, so the bound of C01 survives the clamp; obligations on facts regenerated from the source: each of the "
+              "three serializers sets flag bit 0x04 under protectValueRange, both readers decode it, both decompressor entries clamp. On the "
+              "implementation: arrays touching their extremes, protection on, all kernels: every element in [min, max] and within the bound."),
+        note=TB_COMMON + "Stdlib real axioms via Flocq. The composition clamp o kernel is observed (oracle), the flag/clamp sites are regex facts over the source text.",
+        technique="Coq proof over Flocq (order lemmas from Bcompare_correct) + source-fact obligations + oracle on extreme-touching data"),
 }
 
 NOT_YET = {}
